@@ -463,4 +463,8 @@ StateReadsCorrect ==
 FailedWriteAppliesNothing ==
   [][res'.kind = "failed" =>
        disk' = IF act'.name \in {"Store", "Revert", "Snapshot"} THEN EnsureInit(disk, mem).d ELSE disk]_vars
+
+(* a restart (new objects on the same store) changes nothing durable; what it re-derives in memory
+   is judged by MemAgreesWithDisk / NextStoreSucceeds / StateReadsCorrect right after it *)
+RestartIsNoOp == [][act'.name = "Restart" => disk' = disk]_vars
 =============================================================================
